@@ -15,7 +15,7 @@ from rpv import families
 from rpv.checks.inproc_util import candidate_days, clean_cut
 from rpv.cli_core import add_verbatim_duplicate, cli_histories, cli_profile, decode_trace, method_choice, parse_report_ts
 from rpv.drive_cli import COUNTRY_LANGUAGES, COUNTRY_METHODS, Workspace
-from rpv.gen import METHODS, dstr, parse_ts
+from rpv.gen import METHODS, dstr, own_years, parse_ts, schedule
 from rpv.model import Model
 from rpv.oracle.balance import overdraft
 from rpv.oracle.reports import FullReport, num, snap, tax_report_rows
@@ -753,7 +753,7 @@ def _c10_one(ctx: Any, case: Dict[str, Any], name: str) -> None:
     ws = Workspace(ctx.scratch, name)
     try:
         hists = case["hists"]
-        ws.write(hists)
+        ws.write(hists, accounting_methods={int(k): v for k, v in case.get("ini_methods", {}).items()} or None)
         from_s, to_s = case["window"]
         window_args = (["-f", from_s] if from_s else []) + (["-t", to_s] if to_s else [])
         base = ws.run(case["country"], case["args"])
@@ -860,7 +860,33 @@ def c10(ctx: Any, total: int) -> None:
             if options:
                 from_d = rng.choice(options)
         window = [from_d.isoformat(), to_d.isoformat()] if rng.random() < 0.7 else [from_d.isoformat(), None]
-        _c10_one(ctx, _case(hists, "us", ["-m", rng.choice(METHODS)], None, {"window": window}), f"c10-{index}")
+        args, ini_methods = ["-m", rng.choice(METHODS)], None
+        if index % 2:
+            # the year -> method schedule comes from the config file: pairing starts at the beginning of the history with each
+            # year's method, wherever the window starts
+            years = sorted({y for h in hists.values() for y in own_years(h)})
+            for _ in range(6):
+                ini_methods = schedule(rng, years[0], years[-1])
+                if len(ini_methods) > 1 and sorted(ini_methods)[1] <= from_d.year:
+                    break
+            if len(ini_methods) == 1:
+                ini_methods = {1970: next(iter(ini_methods.values()))}
+            args = []
+            ctx.count("cli_cases_with_schedule_from_config")
+            if len(ini_methods) > 1 and sorted(ini_methods)[1] <= from_d.year:
+                ctx.count("cli_cases_with_from_date_after_a_method_change")
+        if index % 4 == 3:
+            # directed: a lot left partly consumed at a year boundary where the configured method changes, window starting after it
+            hist, ini_methods = families.year_boundary_switch(rng)
+            hists = {hist["asset"]: hist}
+            second = sorted(ini_methods)[1]
+            from_d = rng.choice((date(second, 1, 1), date(second, 1, 2), date(second, 2, 28), date(second + 1, 1, 1)))
+            window = [from_d.isoformat(), rng.choice((None, None, date(second, 12, 31).isoformat(), date(second + 2, 6, 30).isoformat()))]
+            if window[1] is not None and window[1] < window[0]:
+                window[1] = None
+            args = []
+            ctx.count("cli_cases_with_from_date_after_a_method_change")
+        _c10_one(ctx, _case(hists, "us", args, ini_methods, {"window": window}), f"c10-{index}")
 
 
 def c10_replay(ctx: Any, case: Dict[str, Any]) -> None:
